@@ -24,9 +24,15 @@ type Prop struct {
 	Gen func(w *bufio.Writer, seed int64, n int, tier string)
 	// Run executes one case against the implementation; out prints "<id> <line>".
 	Run func(c *Case, out func(string))
+	// Child (optional) runs inside a child process started by Run (crash scenarios):
+	// kevo_harness child <prop> <casefile> <caseid> <args...>
+	Child func(c *Case, args []string)
 }
 
 var props = map[string]*Prop{}
+
+// caseFilePath is the case file of the current "run" (children re-read it).
+var caseFilePath string
 
 func register(id string, p *Prop) { props[id] = p }
 
@@ -98,12 +104,25 @@ func main() {
 			tier = os.Args[5]
 		}
 		p.Gen(w, seed, n, tier)
+	case "child":
+		cases, err := readCases(os.Args[3])
+		if err != nil {
+			os.Exit(3)
+		}
+		for _, c := range cases {
+			if c.ID == os.Args[4] && p.Child != nil {
+				p.Child(c, os.Args[5:])
+				os.Exit(0)
+			}
+		}
+		os.Exit(3)
 	case "run":
 		cases, err := readCases(os.Args[3])
 		if err != nil {
 			fmt.Fprintln(os.Stderr, err)
 			os.Exit(2)
 		}
+		caseFilePath = os.Args[3]
 		for _, c := range cases {
 			c := c
 			out := func(s string) { w.WriteString(c.ID + " " + s + "\n") }
